@@ -16,13 +16,13 @@ EXC = 'MesonException'
 
 
 def A(text: str) -> Atom:
-    a, v = canon(ast.parse(text, mode='eval').body, True)
+    a, v = canon(S.sub({}, ast.parse(text, mode='eval').body), True)
     assert v, text
     return a
 
 
 def P(text: str) -> str:
-    return norm(ast.parse(text, mode='eval').body)
+    return norm(S.sub({}, ast.parse(text, mode='eval').body))
 
 
 def type_of(w: T.Dict[Atom, bool], subject: str) -> str:
@@ -96,10 +96,29 @@ def _toint(ctx: RuleCtx, mod: T.Any, qn: str, want: str, base: str) -> None:
     rows = S.Sym(fn, handlers=True).rows()
     normal = [r for r in rows if not any(f.kind == 'except' for f in r.fx)]
     handled = [r for r in rows if any(f.kind == 'except' for f in r.fx)]
-    ok = len(normal) == 1 and normal[0].outcome == ('return', P(want))
-    ctx.require(ok, f'{qn}: converts with {want}', mod, qn, fn, f'the conversion is {[r.outcome for r in normal]}; reference: {want} ({base})', fn)
-    okh = bool(handled) and all([f.text for f in r.fx if f.kind == 'except'] == ['ValueError'] and r.outcome == ('raise', EXC) for r in handled)
-    ctx.require(okh, f'{qn}: ValueError becomes MesonException', mod, qn, 'except ValueError', f'an unparsable string does not end in MesonException: {[repr(r) for r in handled]}', fn)
+    want_base = 8 if base == 'octal' else 10
+    if len(normal) != 1 or normal[0].outcome[0] != 'return':
+        raise Undecided(f'{qn}: conversion of unknown form: {[repr(r) for r in normal]}')
+    v = normal[0].value
+    if not (isinstance(v, ast.Call) and isinstance(v.func, ast.Name) and v.func.id == 'int' and v.args and norm(v.args[0]) == 'ARG1' and len(v.args) <= 2):
+        raise Undecided(f'{qn}: conversion of unknown form: {norm(v)}')
+    b = v.args[1] if len(v.args) == 2 else kwarg(v, 'base')
+    try:
+        got_base = 10 if b is None else fold_expr(ctx.repo, mod, b)
+    except Undecided:
+        raise Undecided(f'{qn}: base of the conversion is not a constant: {norm(v)}')
+    ctx.require(got_base == want_base, f'{qn}: converts with {want}', mod, qn, v, f'the conversion is {norm(v)} (base {got_base}); reference: {want} ({base})', fn)
+    if not handled:
+        ctx.violation(mod, qn, v, f'{norm(v)} is not inside a try: a string that is not a number escapes as ValueError instead of MesonException', fn)
+        return
+    caught = {x for r in handled for f in r.fx if f.kind == 'except' for x in __import__('re').findall(r'\w+', f.text)}
+    if not caught & {'ValueError', 'Exception', 'BaseException', 'bare'}:
+        ctx.violation(mod, qn, 'except ' + ', '.join(sorted(caught)), f'the handler around {norm(v)} catches {sorted(caught)}, not ValueError: an unparsable string escapes as ValueError', fn)
+        return
+    okh = all(r.outcome == ('raise', EXC) for r in handled)
+    if not okh and any(r.outcome[0] != 'raise' for r in handled):
+        raise Undecided(f'{qn}: handler of unknown form: {[repr(r) for r in handled]}')
+    ctx.require(okh, f'{qn}: ValueError becomes MesonException', mod, qn, 'except ValueError', f'an unparsable string ends in {[r.outcome for r in handled]}, not MesonException', fn)
 
 
 def integer(ctx: RuleCtx, mod: T.Any) -> None:
@@ -245,10 +264,15 @@ def string_array(ctx: RuleCtx, mod: T.Any) -> None:
     fn2 = mod.func('UserStringArrayOption.listify')
     rows2 = S.Sym(fn2, handlers=True).rows()
     normal = [r for r in rows2 if not any(f.kind == 'except' for f in r.fx)]
-    ok = len(normal) == 1 and normal[0].outcome == ('return', P('listify_array_value(ARG1, self.split_args)')) and \
-        all(r.outcome == ('raise', EXC) for r in rows2 if r not in normal)
-    ctx.require(ok, 'UserStringArrayOption.listify: listify_array_value(value, split_args), errors stay MesonException', mod, 'UserStringArrayOption.listify', fn2,
-                f'listify is {[repr(r) for r in rows2]}', fn2)
+    if len(normal) != 1 or normal[0].outcome[0] != 'return' or not is_named_call(normal[0].value, 'listify_array_value'):
+        raise Undecided(f'UserStringArrayOption.listify: of unknown form: {[repr(r) for r in rows2]}')
+    ok = normal[0].outcome == ('return', P('listify_array_value(ARG1, self.split_args)'))
+    ctx.require(ok, 'UserStringArrayOption.listify: listify_array_value(value, split_args)', mod, 'UserStringArrayOption.listify', normal[0].value,
+                f'listify calls {normal[0].outcome[1]}; reference: listify_array_value(value, self.split_args)', fn2)
+
+
+def is_named_call(e: T.Any, name: str) -> bool:
+    return isinstance(e, ast.Call) and isinstance(e.func, (ast.Name, ast.Attribute)) and (e.func.id if isinstance(e.func, ast.Name) else e.func.attr) == name
 
 
 def std(ctx: RuleCtx, mod: T.Any) -> None:
